@@ -436,7 +436,7 @@ func c13(c *an.Ctx) {
 			// mismatch -> false inside the loop; true only after the loop
 			for _, e := range an.Exits(tt, false) {
 				v := an.Expr(e.(*ssa.Return).Results[0])
-				if v == "true" && an.LoopHeaderOf(e) != nil {
+				if v == "true" && !an.OnlyAfterLoop(tt, an.LoopHeaderOf(calls[0]), e) {
 					o.FailAt(e, "Tester.Test returns true before all filter columns were compared")
 				}
 			}
